@@ -19,7 +19,8 @@ ID = "C16"
 POOL = ["", "a\n", "a", "a\nb\n", "a\nc\n"]
 FILES5 = ["d1/a.c", "d1/b.c", "d2/a.c", "d2/c.h", "e.cpp"]
 FILES6 = FILES5 + ["d2/f.cc"]
-VARIANTS = ["plain", "excluded-twin", "symlink-twin", "non-source-twin"]
+VARIANTS = ["plain", "excluded-twin", "symlink-twin", "non-source-twin", "symlink-listed-first"]
+MTIME = 1_600_000_000   # every file gets the same mtime (cp -p, archive extraction, one clock tick): a shallow comparison cannot tell them apart
 
 
 class _Timeout(Exception):
@@ -36,7 +37,8 @@ def build(root, files, assign, variant):
     for f, ci in zip(files, assign):
         with open(os.path.join(root, f), "w") as fh:
             fh.write(POOL[ci])
-    for extra in ("d1/link.c", "d1/a.txt"):
+        os.utime(os.path.join(root, f), (MTIME, MTIME))
+    for extra in ("d1/link.c", "d1/a.txt", "d0/l.c"):
         p = os.path.join(root, extra)
         if os.path.lexists(p):
             os.unlink(p)
@@ -45,6 +47,9 @@ def build(root, files, assign, variant):
         excludes = ["d2/a.c"]
     elif variant == "symlink-twin":
         os.symlink("a.c", os.path.join(root, "d1/link.c"))
+    elif variant == "symlink-listed-first":
+        os.makedirs(os.path.join(root, "d0"), exist_ok=True)      # d0/l.c sorts before its target d1/a.c
+        os.symlink("../d1/a.c", os.path.join(root, "d0/l.c"))
     elif variant == "non-source-twin":
         with open(os.path.join(root, "d1/a.txt"), "w") as fh:
             fh.write(POOL[assign[0]])
